@@ -661,7 +661,12 @@ func (cr *concRun) checkLoadRemovedNewerWrite() {
 			}
 			cr.probe["load-install-displaced-explicit-value"]++
 			if w.Call > l.Enter {
-				cr.fail(P("C09"), "load.displaced-newer-write", ev.K, "key %d: value %d was written by %s (task %d, invoked at %d) after the loader had been entered (at %d), yet the installation step of that load removed it (cause %s, outcome %s)", ev.K, ev.V, w.Op, w.Task, w.Call, l.Enter, ev.Cause, l.Outcome)
+				props := P("C09")
+				if l.Reload {
+					// C11: a reload replaces / removes the entry it reloaded, not a value written since
+					props = P("C09", "C11")
+				}
+				cr.fail(props, "load.displaced-newer-write", ev.K, "key %d: value %d was written by %s (task %d, invoked at %d) after the loader had been entered (at %d), yet the installation step of that load removed it (cause %s, outcome %s)", ev.K, ev.V, w.Op, w.Task, w.Call, l.Enter, ev.Cause, l.Outcome)
 			}
 		}
 	}
